@@ -2,6 +2,7 @@ package larking
 
 import (
 	"context"
+	"io"
 	"net"
 
 	"github.com/gobwas/ws"
@@ -92,6 +93,9 @@ func (s *streamWS) RecvMsg(m interface{}) error {
 
 		b, _, err := wsutil.ReadClientData(s.conn)
 		if err != nil {
+			if cerr, ok := err.(wsutil.ClosedError); ok && cerr.Code == ws.StatusNormalClosure {
+				return io.EOF // the client ended its stream
+			}
 			return err
 		}
 		if len(b) > s.maxRecv {
